@@ -522,6 +522,12 @@ func (o *c08Obs) After(w *wWorld, st *wStep) *kit.Viol {
 			o.changes["message"] = true
 		case "set":
 			o.changes["set-"+st.Op.A] = true
+			if st.Op.T == "me" && strings.Contains(st.Req, `"trusted"`) {
+				o.changes["me-trusted"] = true
+			}
+			if st.Op.T == "me" && strings.Contains(st.Req, `"public"`) {
+				o.changes["me-public"] = true
+			}
 		case "del":
 			o.changes["del-"+st.Op.A] = true
 		case "sub", "leave":
@@ -572,6 +578,11 @@ func (o *c08Obs) After(w *wWorld, st *wStep) *kit.Viol {
 		switch {
 		case strings.HasSuffix(v.Sig, ":chan-reader") && !offlineSet && !st.Fired:
 			v.Sig = "chan-reader:" + v.Sig
+		case strings.HasPrefix(v.Sig, "diverged:sub-private:") && !st.Skipped && (!st.Fired || st.ok()) && strings.Contains(d.key, st.Route) &&
+			((st.Op.K == "sub" && c08WasDeleted(o.preStore, st.Route, w, st.User)) || (st.Op.K == "set" && st.Op.A == "given" && c08WasDeleted(o.preStore, st.Route, w, st.Op.U))):
+			// re-subscription: the adapter keeps the private value of the soft-deleted row (undelete),
+			// the topic caches the value of the request (none)
+			v.Sig = "resubscribe-private-resurrected:" + topicKind(st.Route)
 		case st.Fired:
 			// how the request was answered is part of the root cause: a refused request whose first
 			// write persisted is one thing, an acknowledged request which was not stored another
@@ -582,11 +593,6 @@ func (o *c08Obs) After(w *wWorld, st *wStep) *kit.Viol {
 				ack = "unanswered"
 			}
 			v.Sig = "after-fault:" + opShape(&st.Op) + ":" + ack + ":" + v.Sig
-		case strings.HasPrefix(v.Sig, "diverged:sub-private:") && !st.Skipped && strings.Contains(d.key, st.Route) &&
-			((st.Op.K == "sub" && c08WasDeleted(o.preStore, st.Route, w, st.User)) || (st.Op.K == "set" && st.Op.A == "given" && c08WasDeleted(o.preStore, st.Route, w, st.Op.U))):
-			// re-subscription: the adapter keeps the private value of the soft-deleted row (undelete),
-			// the topic caches the value of the request (none)
-			v.Sig = "resubscribe-private-resurrected:" + topicKind(st.Route)
 		case st.Op.K == "set" && !st.Skipped && w.sessOK(st.Sess) && w.sess[st.Sess].s.getSub(st.Route) == nil:
 			// {set} from a session that is not attached is served from the store path even when
 			// the topic is loaded (hub.meta -> replyOfflineTopicSetSub)
@@ -810,6 +816,13 @@ func (o *c08Obs) Final(w *wWorld) *kit.Viol {
 			}
 			if isReader {
 				sig = "chan-reader:" + sig
+			}
+			if sig == "reload-differs:desc:p2p:public" || sig == "reload-differs:desc:p2p:trusted" {
+				// The listed finding is about a value changed on 'me' while the P2P topic is loaded;
+				// a difference with no such change in the history is something else.
+				if !o.changes["me-"+diffField] {
+					sig += ":no-change-on-me"
+				}
 			}
 			if resurrected != "" {
 				// initTopicP2P re-creates the subscription of a participant who had unsubscribed as soon
